@@ -87,3 +87,23 @@ Lemma explode_nonempty s : s <> [] -> explode s <> [].
 Proof.
   unfold explode. destruct s; [congruence|]. intros _. simpl. congruence.
 Qed.
+
+(* strings.ToLower as the library uses it for map keys (SetMapKeysToLower).  ASCII letters are
+   lowered; a byte that is not part of a valid UTF-8 sequence comes back as U+FFFD (EF BF BD), which
+   is what strings.Map does with it.  Valid multi-byte letters are left as they are: their Unicode
+   case mapping is not modelled (the correspondence generates no upper-case non-ASCII letters). *)
+Fixpoint go_lower_fuel (fuel : nat) (s : str) : str :=
+  match fuel with
+  | O => []
+  | S f =>
+      match s with
+      | [] => []
+      | b0 :: _ =>
+          let n := first_rune_len s in
+          if N.leb 128 b0 && Nat.eqb n 1 then [239; 191; 189] ++ go_lower_fuel f (skipn 1 s)
+          else List.map lower_byte (firstn n s) ++ go_lower_fuel f (skipn n s)
+      end
+  end.
+
+Definition go_lower (s : str) : str :=
+  if forallb (fun b => N.ltb b 128) s then to_lower s else go_lower_fuel (length s) s.
